@@ -67,7 +67,7 @@ int main(void) {
   ref.f3 = ROTS[ROTK];
   Label lab = {0}; lab.f0 = TAG(ll, lt); lab.f1 = txt; VXD(lab.f2) = (double)lx; VYD(lab.f2) = (double)ly; lab.f5 = 1.0;
 #if LAB2      /* a second label, in the other cell: position modal variables do not survive a CELL record */
-  int64_t lx2 = nd_range(-LIM, LIM), ly2 = nd_range(-LIM, LIM); uint32_t ll2 = nd_u32(), lt2 = nd_u32();
+  int64_t lx2 = nd_bool() ? lx : nd_range(-LIM, LIM), ly2 = nd_bool() ? ly : nd_range(-LIM, LIM); uint32_t ll2 = nd_u32(), lt2 = nd_u32();      /* coordinates shared with the first label get their own weight */
   Label lab2 = {0}; lab2.f0 = TAG(ll2, lt2); lab2.f1 = txt; VXD(lab2.f2) = (double)lx2; VYD(lab2.f2) = (double)ly2; lab2.f5 = 1.0;
   Label* lb[1] = {&lab2}; D.f5.f0 = 1; D.f5.f1 = 1; D.f5.f2 = (void*)lb;
 #endif
